@@ -68,6 +68,24 @@ def formula_scope(name):
         # path formula (G F p, X G q, (X p) U q, ...): the shapes no CTL rule applies to
         return [(q, g) for q in 'AE' for g in fm.enum_exact(fm.LTL_UN, fm.LTL_BIN, (fm.P, fm.Q), 2)
                 if g[0] in fm.TEMP and fm.temporal_count(g) == 2]
+    if name == 'Qg-k3':
+        return [(q, g) for q in 'AE' for g in fm.enum_strided(fm.LTL_UN, fm.LTL_BIN, (fm.P, fm.Q), 3, 97)]
+    if name == 'nest3':
+        # quantifier nesting 3: Q1 o1 (Q2 o2 (Q3 o3 p)) with temporal operators in between
+        out = []
+        ops1 = [lambda f: ('X', f), lambda f: ('F', f), lambda f: ('G', f), lambda f: ('U', fm.Q, f),
+                lambda f: ('R', f, fm.Q), lambda f: ('not', ('X', f)), lambda f: ('and', fm.Q, ('X', f))]
+        i = 0
+        for q1 in 'AE':
+            for q2 in 'AE':
+                for q3 in 'AE':
+                    for a in ops1:
+                        for b in ops1[:5]:
+                            for c in ops1[:4]:
+                                i += 1
+                                if i % 5 == 0:
+                                    out.append((q1, a((q2, b((q3, c(fm.P)))))))
+        return out
     if name == 'nest2':
         inner = []
         for q in 'AE':
@@ -161,19 +179,24 @@ def run(ctx):
     if ctx.thorough:
         scopes = [(1, 'Qg-k2', 1), (2, 'Qg-k2', 1), (1, 'nest2', 1), (2, 'nest2', 1),
                   (2, 'bool2', 1), (3, 'Qg-k1', 16), (3, 'nest2', 64), (4, 'Qg-k1', 8009),
-                  (3, 'Qg-tt', 7), (3, 'Qg-k2', 211), (4, 'Qg-tt', 40009)]
+                  (3, 'Qg-tt', 7), (3, 'Qg-k2', 211), (4, 'Qg-tt', 40009),
+                  (2, 'Qg-k3', 1), (3, 'Qg-k3', 211), (2, 'nest3', 1), (3, 'nest3', 101)]
         ctx.scopes = ['S(1)+S(2) x Qg-k2 (8648 formulas)', 'S(1)+S(2) x nest2', 'S(2) x bool2',
                       'every 16th of S(3) x Qg-k1', 'every 64th of S(3) x nest2',
                       'every 8009th of S(4) x Qg-k1', 'every 7th of S(3) x Qg-tt (two nested temporal operators)',
-                      'every 211th of S(3) x Qg-k2', 'every 40009th of S(4) x Qg-tt']
+                      'every 211th of S(3) x Qg-k2', 'every 40009th of S(4) x Qg-tt',
+                      'S(2) and every 211th of S(3) x Qg-k3 (every 97th body with exactly 3 operators)',
+                      'S(2) and every 101st of S(3) x nest3 (224 formulas with quantifier nesting 3)']
     else:
         scopes = [(1, 'Qg-k2', 1), (2, 'Qg-k1', 1), (2, 'Qg-k2', 24), (1, 'nest2', 1),
                   (2, 'nest2', 12), (2, 'bool2', 6), (3, 'Qg-k1', 331), (4, 'Qg-k1', 120011),
-                  (3, 'Qg-tt', 401)]
+                  (3, 'Qg-tt', 401), (2, 'Qg-k3', 24), (3, 'Qg-k3', 3001), (2, 'nest3', 12), (3, 'nest3', 2003)]
         ctx.scopes = ['S(1) x Qg-k2', 'S(2) x Qg-k1', 'every 24th of S(2) x Qg-k2', 'S(1) x nest2',
                       'every 12th of S(2) x nest2', 'every 6th of S(2) x bool2',
                       'every 331st of S(3) and every 120011th of S(4) x Qg-k1',
-                      'every 401st of S(3) x Qg-tt (two nested temporal operators)']
+                      'every 401st of S(3) x Qg-tt (two nested temporal operators)',
+                      'every 24th of S(2) and every 3001st of S(3) x Qg-k3 (every 97th body with exactly 3 operators)',
+                      'every 12th of S(2) and every 2003rd of S(3) x nest3 (quantifier nesting 3)']
     ctx.exhaustive = True
     ctx.assumptions = ['reference semantics vp/ref.py (R-STAR) is the trusted base',
                        'atoms are p,q: exactness under atom names that collide with the '
